@@ -58,7 +58,8 @@ func main() {
 			"relation membership is acyclic in the menu (cycles belong to C15)",
 			"polygon loops compared up to rotation at E7 precision; tag order within a feature is not compared",
 		},
-		QuickDeadline: 150e9, Chunk: 64,
+		QuickDeadline: 150e9, ThoroughDeadline: 25 * 60e9, Chunk: 64,
+		WorkerEnv: []string{"GOGC=800", "GOMAXPROCS=2"},
 		Build: func(tier string) (kit.Space, string) {
 			blocks := ok.Blocks(slots, tier)
 			return kit.FuncSpace{N: ok.Total(blocks), F: func(i int64) kit.Result {
